@@ -449,9 +449,18 @@ static void opPlanEdit(Inst& in, unsigned kind, uint8_t origin, uint8_t dest, bo
 	World& w = *W;
 	const uint8_t op = kind == 0 ? OP_PLAN_APPEND : kind == 1 ? OP_PLAN_REMOVE : OP_PLAN_CLEAR;
 	w.apiBegin(in, op, origin, dest);
+	// (a read-only view of the plan taken before the edit is looked at again after it)
+	auto viewBefore = static_cast<const Instance*>(in.obj)->plan();
 	if (kind == 0) planAppend(in.obj->plan(), in, origin, dest, withPayload, "external plan edit");
 	else if (kind == 1) planRemoveAt(in.obj->plan(), in, idx, "external plan edit");
 	else planClear(in.obj->plan(), in, "external plan edit");
+	{
+		bool cons = true;
+		const PlanVec v = readPlan(viewBefore, &cons);
+		if (!samePlan(v, in.plan) || !cons)
+			w.V("C10", "read-only-view-obtained-before-an-edit-is-stale", fmt("external plan edit: a CPlan obtained before the edit iterates as %s (first/last/bool consistent: %d), the plan is %s; %s", planStr(v).c_str(), int(cons), planStr(in.plan).c_str(), w.tail().c_str()));
+		w.stats.add("plan_views_rechecked_after_edit");
+	}
 	w.apiEnd(in);
 	checkObs(in, "plan edit");
 }
@@ -595,8 +604,9 @@ struct Case {
 		if (a.cur < 0) {
 			// inactive manual machine: only activation (and passive calls) are in contract
 			d.op = OP_ENTER;
-			const uint32_t k = w.ch.pick({10, HAS_SERIAL ? 2u : 0u, 2});
+			const uint32_t k = w.ch.pick({10, HAS_SERIAL ? 2u : 0u, 2, HAS_PLANS ? 2u : 0u});
 			if (k == 1) d.op = OP_SAVE; else if (k == 2) d.op = OP_COPY;
+			else if (k == 3) { d.success = w.ch.chance(1, 2); d.op = d.success ? OP_SUCCEED : OP_FAIL; d.a = static_cast<uint8_t>(w.ch.draw(N)); }   // task reports need no active machine
 			return d;
 		}
 		const uint32_t k = w.ch.pick({p.wUpdate, p.wReact, p.wQuery, p.wExtChange, p.wImmediate, HAS_PLANS ? p.wExtReport : 0u, HAS_PLANS ? p.wExtPlan : 0u,
@@ -883,6 +893,28 @@ struct Case {
 		w.snapPending = false;
 		if (sn.cur >= 0) {
 			w.muteAllow = ONLY_C05;
+#if CFG_MANUAL
+			// one in three: the copy is deactivated and activated again before anything else is done with it (C01: exit() exits
+			// the active state and then the root, an inactive machine names no state, enter() pairs up again)
+			if (w.ch.draw(3) == 0) {
+				const int was = sn.cur;
+				opExit(sn);
+				const char* const* saved = w.muteAllow;
+				w.muteAllow = nullptr;
+				const bool exited = sn.st.exits == 1 && sn.st.exitSid == was && (!cfg::HEAD || sn.st.rootExits == 1) && sn.st.enters == 0;
+				if (sn.obj->isActive() || sn.obj->activeStateId() != ffsm2::INVALID_STATE_ID || !exited)
+					w.V("C01", "deactivation-did-not-exit-state-then-root|copy-taken-inside-callback", fmt("a copy taken inside a callback (active in %d): exit() ran %u state exits (state %d), %u root exits; afterwards isActive()=%d activeStateId()=%u; %s", was, sn.st.exits, sn.st.exitSid, sn.st.rootExits, int(sn.obj->isActive()), sn.obj->activeStateId(), w.tail().c_str()));
+				w.muteAllow = saved;
+				w.stats.add("snapshot_exit_enter_cycles");
+				// (re-)establish what is known about it: inactive, nothing outstanding
+				sn.cur = -1; sn.rootIn = false;
+				opEnter(sn);
+				const ffsm2::StateID again = sn.obj->activeStateId();
+				sn.cur = again == ffsm2::INVALID_STATE_ID ? -1 : static_cast<int>(again);
+				sn.rootIn = sn.cur >= 0;
+				if (sn.cur < 0) { w.muteAllow = nullptr; w.V("C01", "machine-activity-vs-pairing|reports-inactive|copy-taken-inside-callback", "enter() on the exited copy left it inactive"); w.muteAllow = ONLY_C05; opDestroy(4); w.muteAllow = nullptr; return; }
+			}
+#endif
 			opUpdate(sn);
 			opReact(sn, 6 + (w.caseNo & 1));
 			opQuery(sn);
